@@ -55,3 +55,59 @@ Proof.
   rewrite to_frames_spec by assumption. unfold show_out.
   destruct (wf_packet p && smallb p); [|reflexivity]. cbn [negb]. rewrite list_eqb_refl. reflexivity.
 Qed.
+
+(* ---------- C05 ---------- *)
+Lemma kind_of_code_code k : kind_of_code (code k) = Some k.
+Proof. destruct k; reflexivity. Qed.
+Lemma cerr_of_code r : cerr_of (cerr_code r) = Some r.
+Proof. destruct r; reflexivity. Qed.
+Lemma kind_eqb_refl k : kind_eqb k k = true.
+Proof. unfold kind_eqb. apply N.eqb_refl. Qed.
+
+Require Import RP.Lemmas.EventsC05.
+Theorem ok_C05_accepts_model k p : wf_packet p = true -> ok_C05 (code k :: show_packet p) (run_DEC (code k :: show_packet p)) = [].
+Proof.
+  intros Hw. destruct (decode_exact k p Hw) as [Hp [Hh [Hv Hf]]].
+  unfold run_DEC, ok_C05. rewrite kind_of_code_code. rewrite <- (app_nil_r (show_packet p)), parse_show_packet.
+  destruct (decode k p) as [e|r| |] eqn:Ed; try contradiction.
+  - destruct (Hv e eq_refl) as [H1 [H2 [H3 [H4 [H5 [H6 H7]]]]]]. rewrite H7.
+    unfold show_dec at 1. unfold show_out at 1. cbn [app]. unfold parse_dobs at 1.
+    rewrite take_app. rewrite event_of_fields, H1. cbn [negb]. rewrite H2, kind_eqb_refl, H3. cbn [negb]. rewrite H4, N.eqb_refl. cbn [negb].
+    rewrite H5, Nat.eqb_refl, H6. cbn [negb]. rewrite parse_show_dec_val, list_eqb_refl. reflexivity.
+  - unfold show_dec, show_out. cbn [app parse_dobs]. rewrite cerr_of_code, (Hf r eq_refl). reflexivity.
+Qed.
+
+(* ---------- C04, USART side ---------- *)
+Lemma parse_show_frame f r : length (f_data f) = 8%nat -> parse_frame (show_frame f ++ r) = Some (f, r).
+Proof.
+  intros Hl. destruct f as [ne st mf la id ad dl d]. unfold show_frame, parse_frame. cbn [f_ne f_st f_mf f_last f_id f_addr f_dlen f_data app] in *.
+  assert (Ht: take 8 (d ++ r) = Some (d, r)) by (replace 8 with (nlen d) by (unfold nlen; rewrite Hl; reflexivity); apply take_app).
+  rewrite Ht. destruct ne, st, mf, la; reflexivity.
+Qed.
+
+Require Import RP.Model.Cobs RP.Model.Frame RP.Lemmas.FrameUsart RP.Lemmas.FrameCan RP.Lemmas.Builder.
+Lemma wf_frame_len f : wf_frame f = true -> length (f_data f) = 8%nat.
+Proof. intros H. destruct (wf_frame_parts f H) as [_ [_ [_ [Hl _]]]]. exact Hl. Qed.
+
+Lemma reencode_flags_zero f : wf_frame f = true -> reencode_flags f = [0; 0; 0; 0].
+Proof.
+  intros Hw. unfold reencode_flags.
+  rewrite usart_layout by assumption. rewrite to_bxcan_layout by assumption.
+  assert (Hn: pflag (builder_new f) = 0).
+  { unfold builder_new. destruct (negb (f_st f)); [reflexivity|]. destruct (f_last f); [|reflexivity].
+    destruct (wf_frame_parts f Hw) as [_ [Hi _]]. assert (E: (f_id f + 1 <? 65536) = true) by lia. rewrite E. reflexivity. }
+  rewrite Hn. cbn [pflag].
+  match goal with |- context [builder_new ?s] => assert (Hb: exists b, builder_new s = Val b) by (unfold builder_new; cbn [f_st f_last f_id negb]; eexists; reflexivity) end.
+  destruct Hb as [b Hb]. rewrite Hb. destruct (add_frame_no_panic b f) as [H1 H2].
+  destruct (add_frame b f); try contradiction; reflexivity.
+Qed.
+
+Theorem ok_C04_USD_accepts_model bs : bytes bs = true -> ok_C04_USD bs (run_USD bs) = [].
+Proof.
+  intros Hb. destruct (from_usart_total bs Hb) as [Hp [Hh Hv]]. unfold ok_C04_USD, run_USD, c04_ok.
+  destruct (from_usart bs) as [f|e| |] eqn:Ef; try contradiction.
+  - destruct (Hv f eq_refl) as [Hw _]. unfold show_out. cbn [app parse_fobs].
+    rewrite take_app. rewrite <- (app_nil_r (show_frame f)), (parse_show_frame f [] (wf_frame_len f Hw)).
+    rewrite Hw, (reencode_flags_zero f Hw). reflexivity.
+  - reflexivity.
+Qed.
